@@ -33,6 +33,7 @@ struct Runner {
 
 	template <class Sc> void get_typed(Sc& sc, const std::string& key, const Val& want) const {
 		switch (want.t) {
+		case RT::Nil: { if (key.size() % 2) { int64_t v = 777001; bool ok = Serialize(sc, key, v); if (ok || v != 777001) report("a null value is reported as loaded or modifies its target", vf::cat("key '", key, "' int64 target, ok=", ok, " v=", v)); } else { std::string v = "<unset>"; bool ok = Serialize(sc, key, v); if (ok || v != "<unset>") report("a null value is reported as loaded or modifies its target", vf::cat("key '", key, "' string target, ok=", ok)); } break; }
 		case RT::Int: case RT::UInt: { int64_t v = 777001; bool ok = Serialize(sc, key, v); const int64_t w = want.t == RT::Int ? want.i : static_cast<int64_t>(want.u); if (!ok) report("a present field is reported as not loaded", vf::cat("key '", key, "'")); else if (v != w) report("a request returned the value of another field / a wrong value", vf::cat("key '", key, "' got ", v, " want ", w)); break; }
 		case RT::Str: { std::string v = "<unset>"; bool ok = Serialize(sc, key, v); if (!ok) report("a present field is reported as not loaded", vf::cat("key '", key, "'")); else if (v != want.s) report("a request returned the value of another field / a wrong value", vf::cat("key '", key, "' got '", v.substr(0, 40), "' want '", want.s.substr(0, 40), "'")); break; }
 		case RT::Bool: { bool v = !want.b; bool ok = Serialize(sc, key, v); if (!ok) report("a present field is reported as not loaded", vf::cat("key '", key, "'")); else if (v != want.b) report("a request returned the value of another field / a wrong value", vf::cat("key '", key, "' bool")); break; }
@@ -106,6 +107,7 @@ std::string gen_key(vf::Src& s, size_t idx, int archId) {
 	return k + std::to_string(idx);
 }
 Val gen_value(vf::Src& s, int depth, int archId) {
+	if ((archId == MSGPACK || archId == JSON) && s.chance(1, 10)) return refmp::mkNil();   // null: present in the document, "not loaded" for any non-nullable target (README)
 	switch (s.draw(depth > 0 ? 7 : 5)) {
 	case 0: case 1: return refmp::mkInt(s.integer<int32_t>());
 	case 2: { size_t n = s.chance(1, 8) ? 100 + s.draw(200) : s.len(12); std::string t; for (size_t i = 0; i < n; i++) t.push_back(static_cast<char>(0x21 + s.draw(0x5e))); if (archId == XML && t.empty()) t = "x"; return refmp::mkStr(t); }
